@@ -52,7 +52,7 @@ func edgeNumPicture(r *prng.R) string {
 	case 3:
 		return strings.Repeat("0", r.Range(300, 330)) // wider than any double
 	case 4:
-		return r.Pick("0e0", "#e0", "e0", "0e", "0.e0", ".0e0", "0%e0", "%", "‰", ".", ",", "0,", ",0", "0.0,0", "#.#e#", "0e0e0", "00e+0", "0;0;0", ";0", "0;", "-0", "0-", "''", "'0'", "0'x'0")
+		return r.Pick("#,###", "#,##.##", "##,#", "#,#", "#,####", "0e0", "#e0", "e0", "0e", "0.e0", ".0e0", "0%e0", "%", "‰", ".", ",", "0,", ",0", "0.0,0", "#.#e#", "0e0e0", "00e+0", "0;0;0", ";0", "0;", "-0", "0-", "''", "'0'", "0'x'0")
 	case 5:
 		return genPicture(r).text() + r.Pick("", ";", "e", "%", ".", "0", "#")
 	}
@@ -104,7 +104,41 @@ func edgeMatchObjectWith(r *prng.R, match, start, end, groups, next string) stri
 func edgeCase(r *prng.R) (prog, doc, kind string) {
 	str := func(s string) string { return jast.QuoteStr(s, false) }
 	doc = `{"s":"abcabc","t":"é😀 x","n":12.5}`
-	switch r.Intn(10) {
+	switch r.Intn(12) {
+	case 10, 11:
+		// name steps that coincide with (unexported) fields of the evaluator's
+		// function objects, and function values that went through a library
+		// function (stored by value)
+		fn := r.Pick("$sum", "function($a){1}", "$substring(?,1)", "/a(b)/", "($string ~> $uppercase)", "|a|{\"b\":1}|", "$now", "/a/(\"aa\")", "$distinct($sum)", "$sort($max)[0]",
+			"$single($sum, function($f){true})", "$reverse([$sum,$max])[0]", "$distinct([$sum,1])[0]", "function($x)<n:n>{$x}")
+		field := r.Pick("name", "fn", "params", "isVariadic", "undefinedHandler", "contextHandler", "context", "body", "paramNames", "typed", "env", "args",
+			"pattern", "updates", "deletes", "re", "callables", "callableName", "callableMarshaler", "match", "start", "end", "groups", "next", "t", "isOpt", "Name", "Type")
+		e := "(" + fn + ")." + field
+		switch r.Intn(12) {
+		case 0:
+			e += "[0]"
+		case 1:
+			e += ".*"
+		case 2:
+			e += " = [\"a\"]"
+		case 3:
+			e = "$append(" + e + ", 1)"
+		case 4:
+			e = "$count(" + e + ")"
+		case 5:
+			e = "$string(" + e + ")"
+		case 6:
+			e += "." + field
+		case 7:
+			e = "[" + e + "]"
+		case 8:
+			e = "{\"k\": " + e + "}"
+		case 9:
+			e = "(" + fn + " ~> $string)(s)"
+		case 10:
+			e = "($type ~> " + fn + ")(s)"
+		}
+		return e, doc, "edge:function-object-member"
 	case 0, 1:
 		args := []string{edgeMillis[r.Intn(len(edgeMillis))], str(edgeDatePicture(r))}
 		if r.Intn(3) == 0 {
@@ -118,8 +152,16 @@ func edgeCase(r *prng.R) (prog, doc, kind string) {
 		text := r.Pick("2018-02-03", "1", "12/31/1999", "99999999999999999999", "MMXVIII", "first", "one thousand", "2018-02-03T10:20:30.456+01:00", strings.Repeat("9", 70), "")
 		return "$toMillis(" + str(text) + ", " + str(edgeDatePicture(r)) + ")", doc, "edge:toMillis-picture"
 	case 3, 4:
+		if r.Intn(5) == 0 {
+			// grouping with a digit family that straddles a UTF-8 width boundary
+			return "$formatNumber(" + r.Pick("1116", "1234567.891", "-98765432", "1e15", "1000", "99999.5") + ", " + str(r.Pick("#,###", "#,##.##", "##,#", "#,#", "#,####", "#,###.#,#")) +
+				`, {"zero-digit":` + str(r.Pick("z", "y", "{", "w", "߸", "ߺ", "￺", "٠", "𝟎", "x")) + `})`, doc, "edge:formatNumber-digit-family"
+		}
 		args := []string{edgeNums[r.Intn(len(edgeNums))], str(edgeNumPicture(r))}
 		if r.Intn(4) == 0 {
+			// digit families that straddle a UTF-8 width boundary
+			args = append(args, `{"zero-digit":`+str(r.Pick("z", "y", "{", "w", "߸", "ߺ", "￺", "٠", "𝟎", "a", "9", "~"))+`}`)
+		} else if r.Intn(4) == 0 {
 			if o, ok := c05NumOpts[r.Intn(len(c05NumOpts))].(O); ok {
 				var kv []string
 				for k, v := range o {
